@@ -55,7 +55,8 @@ def _regions(R, n, picks):
     for fn in ('regions_to_bits_rep', 'regions_bits_rep_to_regions'):
         node, text = RG.load(fn)
         R.encode(f'{RG.SRC}:{node.lineno} {fn}', text)
-    timeout_ms = 120000 if R.tier == 'quick' else 600000
+    timeout_ms = 300000 if R.tier == 'quick' else 900000
+    reported = 0
     for nn, pk, label in ((n, None, f'N={n}, any subset'), (16, picks, f'N=16, sequence of {picks} picks')):
         P = RG.Problem(nn, pk)
         tw = z3.Solver()
@@ -75,6 +76,10 @@ def _regions(R, n, picks):
             elif r == 'sat':
                 ci, sel = cex
                 ok, detail = _real_roundtrip(P.names, ci, sel)
+                reported += 0 if ok else 1
+                if not ok and reported > 3:      # the same defect shows up once per region: report the first three
+                    R.ob(name, 'violated', dt, {'idx': ci, 'selected': sel, 'note': 'same class as the findings above'}, nontrivial=True)
+                    continue
                 if ok:
                     raise HarnessError(f'z3 counterexample for "{key}" does not reproduce on the real functions: idx={ci} sel={sel}')
                 st = R.finding(CLS_REG, f'regions_to_bits_rep/regions_bits_rep_to_regions idx={dict(zip(P.names, ci))} '
